@@ -46,6 +46,18 @@ S = {
  "C19_B": ("restart from an ADO array flattened in memory order", "F-ordered or strided array of ADOs as initial state", "C19"),
  "C20_A": ("rx / ry / qrot fold their angle into [0, 2pi)", "angle outside [0, 2pi) with odd floor(angle / 2pi)", "C20"),
  "C20_B": ("rand_ket('fill') retry draws from NumPy's global generator", "distribution='fill' with density x N < 0.5 and an explicit seed", "C20"),
+ "C01c_A": ("inner_op_dia indexes the operator's diagonals with the wrong row stride", "matrix element <l|op|r> with Dia operands and a rectangular operator (bra/ket of different lengths) or several diagonals", "C01 (rectangular inner_op cases over all storage forms; added after the first run missed it)"),
+ "C01c_B": ("add_csr hands back its left operand, not a copy, when there is nothing to add", "CSR sum with an empty right operand (or scale 0) followed by an in-place operation on the result", "C01 (results must not alias their operands; added after the first run missed it), C04"),
+ "C05c_A": ("replacement cache of function elements accepts an entry for another instance wrapping the same function", "one operator-valued function used in two elements with different arguments", "C05"),
+ "C05c_B": ("SumCoefficient / MulCoefficient replace their arguments in place and return self", "a sum or product of coefficients evaluated with call-time arguments, replaced, or wrapped in a QobjEvo with args; the original is read again afterwards", "C05, C06 (original unchanged after evaluation with other arguments; added after the first run caught it only through C04), C04"),
+ "C10c_A": ("explicit Runge-Kutta work buffers always allocated Fortran-ordered", "state given as a C-ordered dense operator (density matrix / propagator) with a non-adaptive or adaptive explicit method", "C10 (operator states in C / Fortran / CSR storage; added after the first run missed it)"),
+ "C10c_B": ("output normalisation decided from the shape of the state instead of its type", "operator-ket initial state with normalize_output on a Schrödinger-type solver", "C10 (operator-ket states; added after the first run missed it)"),
+ "C12c_A": ("_QobjExpectEop decides the real cast of an e_op once, from the first state", "Hermitian e_op whose expectation is real on the first state only (operator / non-Hermitian states later), or the reverse", "C12 (operator-valued states and non-Hermitian intermediates; added after the first run missed it)"),
+ "C12c_B": ("NmmcResult final state of the no-jump trajectory loses its martingale factor", "nm_mcsolve with improved sampling, final state compared with the last stored state", "C12 (final state against last stored state for every multi-trajectory solver; added after the first run missed it)"),
+ "C17c_A": ("Explicit15 supporting drift evaluated at t + dt instead of t + dt / num_ops", "explicit1.5 with two or more monitored channels and a time-dependent drift", "C17 (order-1.5 schemes against each other on fixed noise; added after the first run missed it)"),
+ "C17c_B": ("trajectory measurement divides every Wiener increment by the first output interval", "store_measurement with an unevenly spaced tlist", "C17 (measurement identity on uneven tlist; added after the first run missed it)"),
+ "C19c_A": ("CFExponent._combine merges an 'I' exponent that comes first as if it were real", "two exponents of equal rate, imaginary one listed first, combine=True", "C19 (merged-kinds rewriting plus the Lean combine model; added after the first run missed it)"),
+ "C19c_B": ("stored ADO states are views of the integrator's buffer", "HEOM run storing ADO states with an integrator that reuses its buffer (vern7 / vern9 / adams)", "C19 (ADO alignment over integrators; added after the first run missed it), C12"),
 }
 for d in sorted(glob.glob("/verif/seeded/*/")):
     name = os.path.basename(os.path.dirname(d))
